@@ -13,6 +13,9 @@
                                                         shared tables; "-" = no route)
      COST pen n {x y}                                -> "len turns"   (polyline_len, polyline_turns; pico units)
      VBP ax ay bx by cx cy dx dy ex ey               -> "1" | "0"   (spec_validateBendPoint)
+     BLK k x y .. ax ay bx by                        -> "blocked touches crossed through degen"   (spec_shapeBlocks over poly_edges = the per-shape loop of
+                                                        firstBlocker / newBlockingShape, Avoid/BlockingGen.v; number of end-point touches; some edge properly
+                                                        crossed; through_interior; degenerate_chord)
    Costs are printed as decimal integers in units of 1e-12; route points as decimal num/den. *)
 open C03_model
 
@@ -103,6 +106,12 @@ let () =
          | "DEG" ->
            let p = next_poly () in let a = next_pt () in let b = next_pt () in
            print_endline (if degenerate_chord p a b then "1" else "0")
+         | "BLK" ->
+           let p = next_poly () in let a = next_pt () in let b = next_pt () in
+           let es = poly_edges p in
+           let bi x = if x then 1 else 0 in
+           Printf.printf "%d %d %d %d %d\n" (bi (spec_shapeBlocks a b es)) (int_of_nat (spec_touchCount a b es))
+             (bi (List.exists (spec_crossesEdge a b) es)) (bi (through_interior p a b)) (bi (degenerate_chord p a b))
          | "CVX" ->
            let p = next_poly () in print_endline (if convex_ccw p then "1" else "0")
          | "PLAIN" ->
